@@ -158,7 +158,95 @@ def inject_cases(cls, x):
         except Exception as e:
             why = 'raised:%s' % type(e).__name__
         out.append((['inject-foreign-child', pos], why))
+    # other kinds of unknown children, first and last position: a namespaced foreign child whose own child is in no
+    # namespace; an unknown element in the class's own namespace; an unqualified child
+    for kind, pos in itertools.product(('foreign-with-unqualified-grandchild', 'own-namespace-unknown-tag', 'unqualified'), sorted(set((0, n)))):
+        r = ET.fromstring(s1)
+        if kind == 'foreign-with-unqualified-grandchild':
+            f = ET.Element('{%s}Policy' % FOREIGN, {'k': 'v'})
+            g = ET.SubElement(f, 'Note', {'p': 'q'})
+            g.text = 'note'
+            want = ('Policy', FOREIGN)
+        elif kind == 'own-namespace-unknown-tag':
+            f = ET.Element('{%s}VpUnknownHint' % cls.c_namespace, {'k': 'v'})
+            f.text = 'hint'
+            want = ('VpUnknownHint', cls.c_namespace)
+        else:
+            f = ET.Element('VpBare', {'k': 'v'})
+            f.text = 'bare'
+            want = ('VpBare', None)
+        r.insert(pos, f)
+        s = ET.tostring(r, encoding='UTF-8')
+        why = None
+        try:
+            y = saml2_tophat.create_class_from_xml_string(cls, s)
+            if y is None:
+                why = 'parse-returned-None'
+            else:
+                found = [e for e in y.extension_elements if e.tag == want[0] and (e.namespace or None) == want[1]]
+                if len(found) != 1 or found[0].attributes.get('k') != 'v':
+                    why = 'unknown-child-dropped-or-renamed'
+                else:
+                    if kind == 'foreign-with-unqualified-grandchild':
+                        ch = found[0].children
+                        if len(ch) != 1 or ch[0].tag != 'Note' or (ch[0].namespace or None) is not None or ch[0].text != 'note':
+                            why = 'unknown-grandchild-changed'
+                    if why is None:
+                        s2 = y.to_string()
+                        # (unknown children are re-emitted after the known ones: the root's children compare as a multiset)
+                        if canon_root(ET.fromstring(s2)) != canon_root(ET.fromstring(s)):
+                            why = 'serialisation-of-parsed-message-not-element-identical'
+        except Exception as e:
+            why = 'raised:%s' % type(e).__name__
+        out.append((['inject-child', kind, pos], why))
     return out
+
+
+def canon_et(e):
+    """Prefix-independent canonical form of an ElementTree element."""
+    return (e.tag, tuple(sorted(e.attrib.items())), (e.text or '').strip(), tuple(canon_et(c) for c in e))
+
+
+def canon_root(e):
+    return (e.tag, tuple(sorted(e.attrib.items())), (e.text or '').strip(), tuple(sorted(repr(canon_et(c)) for c in e)))
+
+
+def nspairs_for(x):
+    """Two prefix maps covering every namespace of the instance's tree; the same URI gets different prefixes."""
+    uris = []
+    for e in x._to_element_tree().iter():
+        for name in [e.tag] + list(e.attrib):
+            if name.startswith('{'):
+                u = name[1:].split('}')[0]
+                if u not in uris and u != 'http://www.w3.org/XML/1998/namespace':
+                    uris.append(u)
+    a = {'p%d' % i: u for i, u in enumerate(uris)}
+    b = {'p%d' % i: u for i, u in enumerate(reversed(uris))}
+    b['zz'] = 'urn:vp:unused'
+    return a, b
+
+
+def forced_prefixes(cls):
+    """The alternative serialiser to_string_force_namespace with two prefix maps in turn: each output must parse back
+    to an equal instance (and a plain to_string afterwards is unaffected)."""
+    import saml2_tophat
+    x = schema.base_instance(cls, 2)
+    x.extension_elements.append(ext_elem(1))
+    try:
+        plain = x.to_string()
+        for n, nsp in enumerate(nspairs_for(x)):
+            s = x.to_string_force_namespace(nsp)
+            try:
+                y = saml2_tophat.create_class_from_xml_string(cls, s)
+            except Exception as e:
+                return 'forced-prefix-output-%d-does-not-parse:%s' % (n, type(e).__name__)
+            if y is None or schema.struct(y) != schema.struct(x):
+                return 'forced-prefix-output-%d-differs' % n
+        if x.to_string() != plain:
+            return 'to_string-changed-after-forced-prefixes'
+    except Exception as e:
+        return 'forced-prefix-raised:%s' % type(e).__name__
+    return None
 
 
 def as_extension(cls):
@@ -265,6 +353,10 @@ def evaluate(task):
         n += 1
         if ae:
             bad.append(([['as-extension']], ae))
+        fp = forced_prefixes(cls)
+        n += 1
+        if fp:
+            bad.append(([['forced-prefixes']], fp))
         res.append((cn, n, bad, lm))
     return res
 
@@ -311,7 +403,7 @@ def run(ctx):
         'coverage': {
             'evaluations': n_cases, 'distinct_nontrivial': len(nontriv), 'exhaustive': True, 'classes': len(classes),
             'modules': len(bymod), 'classes_without_from_string_registration': unregistered,
-            'rule': 'every SamlBase subclass of every schema module (discovered by walking the package) x {base instance with every declared attribute and child set (depth 2), every single deviation%s} from the catalogue (attribute absent/XML-special/non-ASCII/empty, foreign namespaced attribute with the same local name, list child count 0/2/3, single child absent, deviating child, leaf text special/non-ASCII/whitespace, plain and namespaced extension attributes, extension elements nested 1 and 2 deep) + a foreign child injected at every child position at the XML level + the module\'s registered *_from_string + the instance carried as extension content of another element (converted twice, source unchanged, round trip); in %s class orders within one process (order-dependent state); oracle: own structural comparison, second serialisation identical, children in c_child_order. non-trivial counts distinct classes' % (', every pair of deviations' if ctx.thorough else '', 'one' if ctx.thorough else 'three'),
+            'rule': 'every SamlBase subclass of every schema module (discovered by walking the package) x {base instance with every declared attribute and child set (depth 2), every single deviation%s} from the catalogue (attribute absent/XML-special/non-ASCII/empty, foreign namespaced attribute with the same local name, list child count 0/2/3, single child absent, deviating child, leaf text special/non-ASCII/whitespace, plain and namespaced extension attributes, extension elements nested 1 and 2 deep) + a foreign child injected at every child position at the XML level, and at the first and last position a foreign child with a grandchild in no namespace, an unknown element of the class\'s namespace, an unqualified child + to_string_force_namespace under two prefix maps in turn + the module\'s registered *_from_string + the instance carried as extension content of another element (converted twice, source unchanged, round trip); in %s class orders within one process (order-dependent state); oracle: own structural comparison, second serialisation identical, children in c_child_order. non-trivial counts distinct classes' % (', every pair of deviations' if ctx.thorough else '', 'one' if ctx.thorough else 'three'),
             'samples': [{'order': t0[0], 'module': t0[1], 'first_classes': t0[2][:3]}],
         },
         'assumptions': ['instances are built as objects: no mixed content (the object model has no tail)', "'' versus absent text is not generated (XML cannot distinguish them)"],
@@ -323,7 +415,10 @@ def replay(ctx, w):
     cls = classes[w['class']]
     devs = {repr(d): m for d, m in deviations(cls)}
     x = schema.base_instance(cls, 2)
-    if w['deviations'] and w['deviations'][0][0] == 'inject-foreign-child':
+    if w['deviations'] and w['deviations'][0][0] == 'forced-prefixes':
+        fp = forced_prefixes(cls)
+        return {'violation': bool(fp), 'why': fp}
+    if w['deviations'] and w['deviations'][0][0] in ('inject-foreign-child', 'inject-child'):
         for d, why in inject_cases(cls, x):
             if d == w['deviations'][0]:
                 return {'violation': bool(why), 'why': why}
